@@ -112,6 +112,8 @@ def check_converge(case):
         specs = dep.specs  # the deployment may have added instances of base classes as devices of their own
         snooped = specs[0]["name"]
         snoop = st_.in_loop(lambda: dep.drivers[snooper_index].snoop_device(snooped))
+        heard_partially = []  # indices of devices a property / group of which was (re)enabled: every client overhears that definition
+        snooped_all = [snooped]  # further devices are snooped later in the history (op "snoop")
         fresh = {}  # (d, vec, el) -> True when the BLOB was assigned within the current definition epoch, after a settle
         redef_pending = set()  # (d, vec) redefined since the last settle
 
@@ -157,7 +159,8 @@ def check_converge(case):
             try:
                 check_blob_republished()
                 stack.compare_views(dep, client, blob_mode, who="network-client", blob_state=blob_state)
-                stack.compare_views(dep, snoop, lambda *a: "equal-or-absent", who="snooping-client", only=snooped, blob_state=False)
+                for sn in snooped_all:
+                    stack.compare_views(dep, snoop, lambda *a: "equal-or-absent", who="snooping-client", only=sn, blob_state=False)
                 check_wire(dep, bytes(st_.control.link.b_writer.all))
             except Failure as f:
                 raise Failure(f.sig, f"at {tag}: {f.msg}")
@@ -178,6 +181,29 @@ def check_converge(case):
                 known_devices = set(client.list_devices())
                 max_in_flight = max(max_in_flight, in_flight)
                 in_flight = 0
+                continue
+            if t == "snoop":
+                # the snooping driver starts following one more device - after it may have overheard parts of it
+                # (preferably a device it is not following yet and has overheard a re-enabled property of)
+                cands_ = [x for x in heard_partially if specs[x]["name"] not in snooped_all]
+                if cands_:
+                    op = {"op": "snoop", "d": cands_[op["d"] % len(cands_)]}
+                dn_ = specs[op["d"] % len(specs)]["name"]
+                if dn_ == "SNOOPER":
+                    continue
+                st_.in_loop(lambda: dep.drivers[snooper_index].snoop_device(dn_), settle=False)
+                if dn_ not in snooped_all:
+                    snooped_all.append(dn_)
+                # its getProperties is answered to every client: for the network client this is a re-definition of the device
+                d_ = op["d"] % len(specs)
+                for g_, v_ in dep.vectors[d_]:
+                    redef_pending.add((d_, v_["name"]))
+                    state_race.discard((d_, v_["name"]))
+                    need_blob.pop((d_, v_["name"]), None)
+                    for e_ in v_["elements"]:
+                        fresh[(d_, v_["name"], e_["name"])] = False
+                labels.add("snoop-started-mid-history")
+                in_flight += 1
                 continue
             if t == "republish_blob":
                 # "push what you hold" for one of the BLOB elements that currently hold a payload (if any)
@@ -247,6 +273,8 @@ def check_converge(case):
                             state_race.add((d, v["name"]))
                         else:
                             state_race.discard((d, v["name"]))
+                    if t in ("venable", "genable") and op["on"] and (op["d"] % len(specs)) not in heard_partially:
+                        heard_partially.append(op["d"] % len(specs))
                     if t == "venable":
                         toggles += 1
                         state_race.discard((d, v["name"]))
@@ -291,12 +319,18 @@ op_st = st.one_of(
     st.just({"op": "settle"}), st.just({"op": "settle"}),
     st.just({"op": "handshake"}),
     st.fixed_dictionaries({"op": st.just("republish_blob"), "k": st.integers(0, 7)}),
+    st.fixed_dictionaries({"op": st.just("snoop"), "d": st.integers(0, 5)}),
+)
+# a property of some device is re-enabled (every client overhears its definition), later the snooping driver starts to
+# follow that device
+overhear_then_snoop = st.tuples(st.integers(1, 5), st.integers(0, 8), st.booleans()).map(
+    lambda t: [{"op": "venable", "d": t[0], "v": t[1], "on": True}] + ([{"op": "settle"}] if t[2] else []) + [{"op": "snoop", "d": t[0]}]
 )
 case_st = st.fixed_dictionaries(
     {
         "devices": drivers.deployment(max_devices=3).filter(lambda specs: all(drivers.spec_size_ok(s) for s in specs)),
         "frags": frags_st,
-        "ops": st.lists(op_st, max_size=25),
+        "ops": st.lists(op_st | overhear_then_snoop, max_size=25).map(lambda xs: [o for x in xs for o in (x if isinstance(x, list) else [x])][:30]),
         "early": st.lists(st.integers(0, 2), max_size=2),
     }
 )
